@@ -89,7 +89,7 @@ fn zero(t: &Unifiable) -> Unifiable { t.clone() }
 
 pub struct Gen<'a> { pub r: &'a mut Rng, pub depth: usize }
 
-const ATOMS: [&str; 8] = ["a", "b", "abc", "Hello World", "x1", "noun_phrase", "Zoë", "über"];
+const ATOMS: [&str; 13] = ["a", "b", "abc", "Hello World", "x1", "noun_phrase", "Zoë", "über", "10:30-11:00", "3:2", "re-read", "todo: re-read", "a:b-c"];
 const VARS: [&str; 5] = ["$X", "$Y", "$Z", "$Head", "$T"];
 
 impl<'a> Gen<'a> {
